@@ -571,6 +571,76 @@ def _x_flatten(reg, c):
     return []
 
 
+def _render(pat, is_re):
+    import re
+    out = []
+    for tok in pat:
+        if tok["t"] == "c":
+            out.append(re.escape(tok["c"]) if is_re else tok["c"])
+        elif tok["t"] == "1":
+            out.append("." if is_re else "?")
+        else:
+            out.append(".*" if is_re else "*")
+    return "".join(out)
+
+
+def _elem(reg, x):
+    from spydrnet.util.hierarchical_reference import HRef
+    if isinstance(x, HRef):
+        return _path_of_href(reg, x)
+    k = kind_of(x)
+    return [k, reg.id_of(x, k)] if k else ["X", 0]
+
+
+def _value_chars(x, key, hier):
+    from spydrnet.util.hierarchical_reference import HRef
+    if isinstance(x, HRef):
+        v = x.name
+    else:
+        try:
+            v = x[key] if key in x else ""
+        except Exception:
+            v = ""
+    return list(v) if isinstance(v, str) else list(str(v))
+
+
+def _q_query(reg, c):
+    """a filtered query plus the observations C13 relates it to"""
+    import spydrnet as sdn
+    from spydrnet.global_state import global_service
+    fn = getattr(sdn, "get_" + c["fn"])
+    hier = c["fn"].startswith("h")
+    root = reg.get(c["root"][0], c["root"][1])
+    base = {}
+    if c["fn"] != "netlists" and not hier:
+        base["selection"] = c["sel"]
+    if c["fn"] != "netlists":
+        base["recursive"] = bool(c["rec"])
+    key = KEYMAP.get(c["key"], c["key"])
+    if not hier:
+        base["key"] = key
+    pats = [_render(p, c["isRe"]) for p in c["pats"]]
+    opts = dict(base, is_case=bool(c["isCase"]), is_re=bool(c["isRe"]))
+    if c["filt"] == "odd":
+        opts["filter"] = lambda e: _elem(reg, e)[-1][-1] % 2 == 1 if isinstance(_elem(reg, e)[-1], list) \
+            else _elem(reg, e)[1] % 2 == 1
+    ret = [_elem(reg, x) for x in fn(root, patterns=list(pats), **opts)]
+    unf_objs = list(fn(root, **base))
+    perm = [_elem(reg, x) for x in fn(root, patterns=list(reversed(pats)), **opts)]
+    saved = dict(global_service._registered_lookups)
+    try:
+        global_service._registered_lookups.clear()
+        slow = [_elem(reg, x) for x in fn(root, patterns=list(pats), **opts)]
+    finally:
+        global_service._registered_lookups.update(saved)
+    reg.last_ret = ret
+    reg.last_info = []
+    reg.last_extra = {"unf": [_elem(reg, x) for x in unf_objs],
+                      "vals": [_value_chars(x, key, hier) for x in unf_objs],
+                      "retPerm": perm, "retSlow": slow, "rendered": pats}
+    return []
+
+
 def _x_clone(reg, c):
     obj = reg.get(c["kind"], c["x"])
     new = obj.clone()
@@ -578,7 +648,7 @@ def _x_clone(reg, c):
     return [(c["kind"], new)]
 
 
-QUERY_OPS = {"clone": _x_clone, "hq": _q_hq, "hcheck": _q_hcheck, "uniquify": _x_uniquify, "flatten": _x_flatten}
+QUERY_OPS = {"q": _q_query, "clone": _x_clone, "hq": _q_hq, "hcheck": _q_hcheck, "uniquify": _x_uniquify, "flatten": _x_flatten}
 
 
 class CallTimeout(Exception):
@@ -598,6 +668,7 @@ def execute(reg, c):
     specification allocates ids in the same order)."""
     import signal
     reg.last_ret = reg.last_info = None
+    reg.last_extra = None
     old = signal.signal(signal.SIGALRM, _alarm)
     signal.alarm(CALL_TIMEOUT_S)
     try:
